@@ -6,6 +6,7 @@ import (
 	"errors"
 	"fmt"
 	"io"
+	"os"
 	"strings"
 	"unicode/utf8"
 
@@ -73,6 +74,7 @@ type SimReader struct {
 	Scribbled   int   // reads after which the unused part of p was overwritten
 	Reads       int
 
+	stdFile  *os.File      // Std == "os.File" (unlinked temp file; closed by reuse)
 	stdBuf   *bytes.Buffer // Std == "bytes.Buffer"
 	stdSlice []byte        // Std == "bytes.Reader": the caller's slice under the reader
 	Reused   bool          // the caller reused the reader's storage after the parse
@@ -253,6 +255,38 @@ func (r *SimReader) asReader() io.Reader {
 	case "strings.Reader":
 		r.pos = r.limit
 		return strings.NewReader(string(r.doc[:r.limit]))
+	case "section-advanced", "bytes.Reader-advanced", "os.File":
+		// a reader with a POSITION: the caller has already consumed k bytes
+		// (front matter, an earlier document in the same file); the input is
+		// what lies between the position and the end
+		prefix := []byte("# consumed by the caller\n\n[skipped]: /before\n\n")
+		prefix = prefix[:len(prefix)-(r.limit*5)%(len(prefix)/2)]
+		if r.scn.Std == "os.File" && r.limit%3 == 0 {
+			prefix = nil // a fresh file
+		}
+		backing := append(append([]byte(nil), prefix...), r.doc[:r.limit]...)
+		r.pos = r.limit
+		switch r.scn.Std {
+		case "section-advanced":
+			// junk beyond the section's end must never be seen
+			sr := io.NewSectionReader(bytes.NewReader(append(backing, "\n\n# beyond the section\n"...)), 0, int64(len(backing)))
+			sr.Seek(int64(len(prefix)), io.SeekStart)
+			return sr
+		case "bytes.Reader-advanced":
+			br := bytes.NewReader(backing)
+			br.Seek(int64(len(prefix)), io.SeekStart)
+			return br
+		default:
+			f, err := os.CreateTemp(os.Getenv("VERIF_SCRATCH_DIR"), "simfile")
+			if err != nil {
+				panic("harness: temp file: " + err.Error())
+			}
+			os.Remove(f.Name())
+			f.Write(backing)
+			f.Seek(int64(len(prefix)), io.SeekStart)
+			r.stdFile = f
+			return f
+		}
 	case "bufio.Reader":
 		var inner io.Reader = r
 		if r.scn.Rich {
@@ -269,6 +303,9 @@ func (r *SimReader) asReader() io.Reader {
 // reuse: the parse is over; the caller does what it likes with what it owns.
 func (r *SimReader) reuse() {
 	switch {
+	case r.stdFile != nil:
+		r.stdFile.Close()
+		r.stdFile = nil
 	case r.stdBuf != nil:
 		r.stdBuf.Reset()
 		r.stdBuf.Write(bytes.Repeat([]byte{0xAA}, r.stdBuf.Cap()))
